@@ -111,8 +111,28 @@ class FormatCall:
     def __init__(self, fn, bb, parts, args):
         self.fn = fn
         self.bb = bb
-        self.parts = parts
+        self.raw_parts = parts
         self.args = args
+        # a plain Display placeholder whose argument is a string constant (`{END}` with `const END: &str`) is literal
+        # text of the template: `format!("a{X}")` and `format!("a'")` are the same template
+        folded = []
+        for k, v in parts:
+            if k == "arg" and v.get("plain") and v["index"] < len(args) and args[v["index"]][0] == "display" and args[v["index"]][1] is not None:
+                try:
+                    o = prim.resolve_promoted(fn, prim.expand_single_def_vars(fn, args[v["index"]][1])).strip()
+                except Exception:
+                    o = args[v["index"]][1].strip()
+                if o.k == "const" and isinstance(o.a.get("v"), str) and o.a.get("k") in ("str", None):
+                    if folded and folded[-1][0] == "lit":
+                        folded[-1] = ("lit", folded[-1][1] + o.a["v"])
+                    else:
+                        folded.append(("lit", o.a["v"]))
+                    continue
+            if k == "lit" and folded and folded[-1][0] == "lit":
+                folded[-1] = ("lit", folded[-1][1] + v)
+                continue
+            folded.append((k, v))
+        self.parts = folded
 
     def literal_text(self):
         return "".join(p[1] for p in self.parts if p[0] == "lit")
